@@ -104,6 +104,20 @@ def gen_class(rng, depth: int, classes: list[dict], prefix: str) -> str:
     return name
 
 
+def inherit_tree(rng, prefix: str) -> list[dict]:
+    """Base and Derived(Base): user code extending a model (or one generated model extending another). `fields` of the derived
+    class lists inherited + own fields (that is what an instance / a JSON document of it has), `own_fields` what its body declares."""
+    meta = rng.choice(["none", "bijective"])
+    wire = (lambda py: py) if meta == "none" else (lambda py: py.split("_")[0] + "".join(w.title() for w in py.split("_")[1:]))
+    fb = [{"py": "f0_name", "wire": wire("f0_name"), "t": {"k": "leaf", "t": "str"}, "default": False},
+          {"py": "f1_item_count", "wire": wire("f1_item_count"), "t": {"k": "opt", "of": {"k": "leaf", "t": "int"}, "style": 0}, "default": True}]
+    fd = [{"py": "g0_user_id", "wire": wire("g0_user_id"), "t": {"k": "opt", "of": {"k": "leaf", "t": "str"}, "style": 1}, "default": True},
+          {"py": "g1_tags", "wire": wire("g1_tags"), "t": {"k": "list", "of": {"k": "leaf", "t": rng.choice(["int", "str", "date"])}}, "default": True}]
+    base = {"name": f"{prefix}Base", "fields": fb, "meta": meta}
+    derived = {"name": f"{prefix}Derived", "fields": fb + fd, "own_fields": fd, "meta": meta, "base": base["name"]}
+    return [derived, base]      # (render_module emits in reverse: the base first)
+
+
 def render_type(t: dict) -> str:
     k = t["k"]
     if k == "leaf":
@@ -128,8 +142,8 @@ def render_module(classes: list[dict], annotations: str = "eager") -> str:
         out += [f"class {en}({base}, Enum):"] + [f"    {m} = {v!r}" for m, v in members] + ["", ""]
     # nested classes are created after their parents in `classes`; emit in reverse so references resolve at import
     for c in reversed(classes):
-        out += ["@dataclass", f"class {c['name']}:"]
-        for f in c["fields"]:
+        out += ["@dataclass", f"class {c['name']}({c['base']}):" if c.get("base") else f"class {c['name']}:"]
+        for f in (c.get("own_fields") or c["fields"]):
             ty = render_type(f["t"])
             if not f["default"]:
                 out.append(f"    {f['py']}: {ty}")
@@ -566,7 +580,11 @@ def run_shard(ctx: Ctx) -> None:
         for ti in range(trees_per_batch):
             classes: list[dict] = []
             prefix = f"S{ctx.shard}B{b}T{ti}"
-            root = gen_class(rng, rng.randint(1, 4), classes, prefix)
+            inherit = ti % 7 == 3
+            if inherit:
+                classes = inherit_tree(rng, prefix)
+                rec.count("trees_with_dataclass_inheritance")
+            root = classes[0]["name"] if inherit else gen_class(rng, rng.randint(1, 4), classes, prefix)
             modname = f"vmon_types_{prefix.lower()}"
             ann = rng.choice(["eager", "eager", "postponed", "quoted"])
             rec.count(f"modules_with_{ann}_annotations")
@@ -578,17 +596,20 @@ def run_shard(ctx: Ctx) -> None:
                 rec.count("trees_with_meta")
             rec.seen("meta_kinds", ",".join(sorted({c["meta"] for c in classes})))
             for inst in range(6 if ctx.quick else 12):
-                py, js, nontriv = gen_value(rng, {"k": "dc", "name": root}, cmap)
-                case = {"module": modname, "cls": root, "py": py, "json": js, "tree": prefix, "nontrivial": nontriv}
-                rootc = cmap[root]
+                iroot = root
+                if inherit and inst % 2 == 0:
+                    iroot = classes[1]["name"]      # base and derived instances alternate: both get converted in one process
+                py, js, nontriv = gen_value(rng, {"k": "dc", "name": iroot}, cmap)
+                case = {"module": modname, "cls": iroot, "py": py, "json": js, "tree": prefix, "nontrivial": nontriv}
+                rootc = cmap[iroot]
                 dflt = [f for f in rootc["fields"] if f["default"] and "dv" not in f]     # (omit only keys whose default is None / [] / {})
                 if dflt and rng.random() < 0.5:
                     drop = [f for f in dflt if rng.random() < 0.7] or dflt[:1]
                     pj = {k: v for k, v in js.items() if k not in {f["wire"] for f in drop}}
-                    ppy = {"dc": root, "fields": {k: v for k, v in py["fields"].items() if k not in {f["py"] for f in drop}}}
+                    ppy = {"dc": iroot, "fields": {k: v for k, v in py["fields"].items() if k not in {f["py"] for f in drop}}}
                     case["partial"] = {"json": pj, "py": ppy}
                 if rng.random() < 0.4:
-                    inj = inject(rng, {"k": "dc", "name": root}, js, cmap, [])
+                    inj = inject(rng, {"k": "dc", "name": iroot}, js, cmap, [])
                     if inj:
                         case["inject"] = {"json": inj[0], "names": inj[1]}
                 cases.append(case)
